@@ -1745,12 +1745,16 @@ class multislater(wave_function_auto):
             wave_data["coeff"],
             wave_data["ref_det"],
         )
-        green = self._calc_green_restricted(walker, wave_data)
+        # the reference need not have the same alpha and beta occupations
+        green, green_dn = self._calc_green(
+            walker[:, : self.nelec[0]], walker[:, : self.nelec[1]], wave_data
+        )
 
         # overlap with the reference determinant
-        overlap_0 = (
-            jnp.linalg.det(walker[jnp.nonzero(ref_det[0], size=self.nelec[0])[0], :])
-            ** 2
+        overlap_0 = jnp.linalg.det(
+            walker[jnp.nonzero(ref_det[0], size=self.nelec[0])[0], : self.nelec[0]]
+        ) * jnp.linalg.det(
+            walker[jnp.nonzero(ref_det[1], size=self.nelec[1])[0], : self.nelec[1]]
         )
 
         # overlap / overlap_0
@@ -1761,7 +1765,7 @@ class multislater(wave_function_auto):
                 green, Acre[(i, 0)], Ades[(i, 0)]
             ).dot(coeff[(i, 0)])
             overlap += vmap(self._det_overlap, in_axes=(None, 0, 0))(
-                green, Bcre[(0, i)], Bdes[(0, i)]
+                green_dn, Bcre[(0, i)], Bdes[(0, i)]
             ).dot(coeff[(0, i)])
 
             for j in range(1, self.max_excitation - i + 1):
@@ -1769,7 +1773,7 @@ class multislater(wave_function_auto):
                     green, Acre[(i, j)], Ades[(i, j)]
                 )
                 overlap_b = vmap(self._det_overlap, in_axes=(None, 0, 0))(
-                    green, Bcre[(i, j)], Bdes[(i, j)]
+                    green_dn, Bcre[(i, j)], Bdes[(i, j)]
                 )
                 overlap += (overlap_a * overlap_b) @ coeff[(i, j)]
 
